@@ -356,6 +356,20 @@ func (e *Exec) do(ws []string) string {
 			return "err"
 		}
 		return "ok"
+	case "reindexlive":
+		// Index.Reindex on the running *Index (the way indextest.Reindex calls it): its in-memory
+		// needs/neededBy maps and its corpus are kept, the rows are wiped and rebuilt
+		if len(ws) != 1 {
+			return "bad-op"
+		}
+		e.Ix.VerifAwaitReindex()
+		if rerr := e.Ix.Reindex(); rerr != nil {
+			if strings.Contains(rerr.Error(), "still needed as dependencies") {
+				return "needed"
+			}
+			return "err"
+		}
+		return "ok"
 	case "obs":
 		if len(ws) != 1 || !e.withC {
 			return "bad-op"
